@@ -73,6 +73,15 @@ def run(ctx):
             if NONDET.search(norm_path(k)):
                 bad.append(("nondeterministic-routing:%s" % norm_path(k), "get_shard reaches %s" % k, cg.chain(seen, k)))
         b = F.fn("ShardManager::get_shard")
+        for c_ in b.calls:
+            if not c_.cleanup and NONDET.search(c_.nname + " " + (c_.ga or "")):
+                bad.append(("nondeterministic-routing:%s" % c_.nname, "get_shard calls %s" % c_.nname, None))
+        for i_, l_ in enumerate(b.locals):
+            if re.search(r"ahash::RandomState|hash::RandomState|ahash::AHasher|rand::", l_["t"]):
+                bad.append(("nondeterministic-hasher-type", "get_shard hashes with a %s (seeded per process): a context's shard changes across restarts" % l_["t"][:80], None))
+                break
+        if bad:
+            return bad
         hn = [c for c in b.calls if not c.cleanup and re.search(r"Hasher\w*::(new|default|with_keys|new_with_keys)$|BuildHasher\w*::build_hasher$|::hash_one$", c.nname)]
         inst.sites.append("hasher constructors: %s" % [c.nname for c in hn])
         if [c.nname for c in hn] != ["std::hash::DefaultHasher::new"] and [c.nname for c in hn] != ["std::collections::hash_map::DefaultHasher::new"]:
